@@ -732,6 +732,12 @@ static int serializeTlv(const KSI_TLV *tlv, unsigned char *buf, size_t buf_size,
 	}
 
 	if ((opt & KSI_TLV_OPT_NO_HEADER) == 0) {
+		/* The length field of the header has 16 bits. */
+		if (len > 0xffff) {
+			KSI_pushError(tlv->ctx, res = KSI_INVALID_FORMAT, "TLV payload does not fit into the 16-bit length field.");
+			goto cleanup;
+		}
+
 		/* Write header. */
 		if (len > 0xff || tlv->tag > KSI_TLV_MASK_TLV8_TYPE) {
 			hdr_len = 4;
